@@ -366,37 +366,83 @@ func ruleC19c(c *Ctx) {
 			}
 			return false
 		}
-		nTrue, nOther := 0, 0
-		for _, b := range fn.Blocks {
-			if len(b.Instrs) == 0 {
-				continue
+		type authFacts struct{ unconf, decodeOK, unexp, inOrg bool }
+		factsOf := func(p pathAtoms, f authFacts) authFacts {
+			if p.has(func(a atom) bool {
+				m, eq := atomFieldEmpty(a, "z/web.Opts.OAuthClientID")
+				m2, eq2 := atomFieldEmpty(a, "z/web.Opts.OAuthClientSecret")
+				return (m && eq) || (m2 && eq2)
+			}) {
+				f.unconf = true
 			}
-			ret, ok := b.Instrs[len(b.Instrs)-1].(*ssa.Return)
-			if !ok || len(ret.Results) != 1 {
-				continue
+			if p.has(func(a atom) bool { m, isNil := atomNilOf(a, isDecodeErr); return m && isNil }) {
+				f.decodeOK = true
 			}
-			if cv, isC := constBool(ret.Results[0]); isC {
+			if p.has(unexpired) {
+				f.unexp = true
+			}
+			if p.has(func(a atom) bool {
+				return a.pos && isResultOfCall(a.v, 0, "(*z/web.handler).userInOrg")
+			}) && p.has(func(a atom) bool {
+				m, isNil := atomNilOf(a, func(v ssa.Value) bool { return isResultOfCall(v, 1, "(*z/web.handler).userInOrg") })
+				return m && isNil
+			}) {
+				f.inOrg = true
+			}
+			return f
+		}
+		good := func(f authFacts) bool { return f.unconf || (f.decodeOK && (f.unexp || f.inOrg)) }
+		nTrue := 0
+		// trueExitsOK: every way g can return true establishes the condition (given
+		// the facts the caller's path already has). A bool helper of the package that a
+		// path relies on (helper() == true) is examined the same way, so the rule does
+		// not depend on the decision being written inline.
+		var trueExitsOK func(g *ssa.Function, outer authFacts, depth int, report func(ret *ssa.Return, ok bool, bad string)) bool
+		trueExitsOK = func(g *ssa.Function, outer authFacts, depth int, report func(ret *ssa.Return, ok bool, bad string)) bool {
+			c.touch(g)
+			allOK := true
+			for _, b := range g.Blocks {
+				if len(b.Instrs) == 0 {
+					continue
+				}
+				ret, ok := b.Instrs[len(b.Instrs)-1].(*ssa.Return)
+				if !ok || len(ret.Results) != 1 {
+					continue
+				}
+				cv, isC := constBool(ret.Results[0])
+				if !isC {
+					if depth > 0 && !good(outer) {
+						allOK = false // a helper's computed result: nothing is known about it
+						if report != nil {
+							report(ret, false, "non-constant result of "+stableName(g))
+						}
+					}
+					continue
+				}
 				if !cv {
 					continue
 				}
 				nTrue++
 				all := true
 				var badPath []string
-				np, complete := pathsTo(fn.Blocks[0], b, func(p pathAtoms) bool {
-					unconf := p.has(func(a atom) bool {
-						m, eq := atomFieldEmpty(a, "z/web.Opts.OAuthClientID")
-						m2, eq2 := atomFieldEmpty(a, "z/web.Opts.OAuthClientSecret")
-						return (m && eq) || (m2 && eq2)
-					})
-					decodeOK := p.has(func(a atom) bool { m, isNil := atomNilOf(a, isDecodeErr); return m && isNil })
-					unexp := p.has(unexpired)
-					inOrg := p.has(func(a atom) bool {
-						return a.pos && isResultOfCall(a.v, 0, "(*z/web.handler).userInOrg")
-					}) && p.has(func(a atom) bool {
-						m, isNil := atomNilOf(a, func(v ssa.Value) bool { return isResultOfCall(v, 1, "(*z/web.handler).userInOrg") })
-						return m && isNil
-					})
-					ok := unconf || (decodeOK && (unexp || inOrg))
+				np, complete := pathsTo(g.Blocks[0], b, func(p pathAtoms) bool {
+					f := factsOf(p, outer)
+					ok := good(f)
+					if !ok && depth < 2 {
+						for _, a := range p.atoms {
+							call, isCall := a.v.(*ssa.Call)
+							if !isCall || !a.pos {
+								continue
+							}
+							h := call.Call.StaticCallee()
+							if h == nil || !inModule(h) || len(h.Blocks) == 0 || pkgOf(h) != pkgOf(g) || typeStr(call.Type()) != "bool" {
+								continue
+							}
+							if trueExitsOK(h, f, depth+1, nil) {
+								ok = true
+							}
+						}
+					}
 					if !ok {
 						all = false
 						for _, bb := range p.blocks {
@@ -405,9 +451,33 @@ func ruleC19c(c *Ctx) {
 					}
 					return ok
 				})
-				c.check(rule, "authenticate: return true #"+itoa(nTrue), ret.Pos(), all && complete && np > 0,
-					"every path to this 'return true' has OAuth unconfigured, or a successfully decoded cookie that is unexpired or whose org membership was re-verified",
-					"a path reaches 'return true' without (unconfigured) or (cookie decoded and (unexpired or org membership re-verified)): "+strings.Join(badPath, ">"))
+				okRet := all && complete && np > 0
+				if !okRet {
+					allOK = false
+				}
+				if report != nil {
+					report(ret, okRet, strings.Join(badPath, ">"))
+				}
+			}
+			return allOK
+		}
+		k := 0
+		trueExitsOK(fn, authFacts{}, 0, func(ret *ssa.Return, ok bool, bad string) {
+			k++
+			c.check(rule, "authenticate: return true #"+itoa(k), ret.Pos(), ok,
+				"every path to this 'return true' has OAuth unconfigured, or a successfully decoded cookie that is unexpired or whose org membership was re-verified",
+				"a path reaches 'return true' without (unconfigured) or (cookie decoded and (unexpired or org membership re-verified)): "+bad)
+		})
+		nOther := 0
+		for _, b := range fn.Blocks {
+			if len(b.Instrs) == 0 {
+				continue
+			}
+			ret, ok := b.Instrs[len(b.Instrs)-1].(*ssa.Return)
+			if !ok || len(ret.Results) != 1 {
+				continue
+			}
+			if _, isC := constBool(ret.Results[0]); isC {
 				continue
 			}
 			nOther++
